@@ -209,7 +209,7 @@ def facts : Facts := {
   allocSitesSized := 6
   typedAllocOK := true
   typedAllocSites := 6
-  decoderSkeleton := "ccc4122215142eb0a0ebde38"
+  decoderSkeleton := "17ca3b1513b97227a6799a0a"
   encoderSkeleton := "5cbdaefa998ed87261c39697"
   resolverSkeleton := "7421c925da242e28e65a020f"
   descTableSkeleton := "cbfebd4eaff63fd247cc0a76"
@@ -273,11 +273,11 @@ def facts : Facts := {
 --   if ufs != nil
 --   call ufs.Add
 --   call unsafe.Add
---   call d.mallocIfPointer
---   if t.FixedSize > 0
---   if len(b)-i < t.FixedSize => return
+--   if t.FixedSize > 0 && len(b)-i < t.FixedSize => return
 --   call len
 --   return i, io.ErrShortBuffer
+--   call d.mallocIfPointer
+--   if t.FixedSize > 0
 --   call decodeFixedSizeTypes
 --   if f.NoCopy
 --   call decodeStringNoCopy
